@@ -178,7 +178,10 @@ def _run_one(args) -> Dict[str, Any]:
                 return {"name": name, "status": "ran", "fired": [] if kind == "refactoring" else [],
                         "benign": kind == "refactoring", "expect": ["<any>"] if kind == "seed" else [],
                         "floor_errors": [], "first": repr(e)[:160], "corpus": kind}
-            fired = sorted({v.rule for v in rep.violations})
+            known_ = [k for k in report.load_known() if k.get("property") == pid and k.get("status") == "open"]
+            fired = sorted({v.rule for v in rep.violations
+                            if not any(k.get("rule") == v.rule and k.get("function") == v.func and
+                                       k.get("construct") == v.construct for k in known_)})
             return {"name": name, "status": "ran", "fired": fired, "benign": kind == "refactoring",
                     "expect": ["<any>"] if kind == "seed" else [], "floor_errors": [],
                     "first": (rep.violations[0].where + " " + rep.violations[0].message)[:200]
